@@ -140,6 +140,28 @@ class NpShim:
             return SymReal(symx.pow_term(lift(a), lift(b)))
         return _np.power(a, b)
 
+    def cov(self, m, y=None, rowvar=True, bias=False, ddof=None, **k):
+        """documented numpy semantics: unbiased sample covariance (ddof=1 unless bias/ddof say otherwise)"""
+        if not _has_sym(m) or y is not None or k:
+            return _np.cov(m, y, rowvar=rowvar, bias=bias, ddof=ddof, **k)
+        X = _np.asarray(m, dtype=object)
+        if X.ndim == 1:
+            X = X.reshape(1, -1)
+        if not rowvar and X.shape[0] != 1:
+            X = X.T
+        nvar, nobs = X.shape
+        if ddof is None:
+            ddof = 0 if bias else 1
+        mean = [sum((lift(X[i, r]) for r in range(nobs)), symx.RV(0)) / nobs for i in range(nvar)]
+        out = _np.empty((nvar, nvar), dtype=object)
+        for i in range(nvar):
+            for j in range(nvar):
+                t = symx.RV(0)
+                for r in range(nobs):
+                    t = t + (lift(X[i, r]) - mean[i]) * (lift(X[j, r]) - mean[j])
+                out[i, j] = SymReal(t / (nobs - ddof))
+        return out
+
     def sign(self, x):
         if isinstance(x, SymReal):
             return SymReal(z3.If(x.t > 0, symx.RV(1), z3.If(x.t < 0, symx.RV(-1), symx.RV(0))))
